@@ -196,7 +196,7 @@ func c17Child(args []string) int {
 			}
 		}
 	}
-	markers := []string{"marker_outside", "marker_inner", "marker_xtxt", "marker_abs", "marker_scripts"}
+	markers := []string{"marker_outside", "marker_inner", "marker_xtxt", "marker_abs", "marker_scripts", "marker_noext", "marker_grgr"}
 	accepted, rejected, sinceScan := 0, 0, 0
 	decision := map[string]bool{}
 	try := func(name, op string) {
@@ -257,6 +257,13 @@ func c17Child(args []string) int {
 		}
 	}
 	fmt.Println("C17BEGIN")
+	// before anything is saved: loading a name whose .gr file does not exist must not fall back to another spelling
+	// (Z, 1, _ and 1.gr.gr exist in the working directory, Z.gr, 1.gr and _.gr do not yet)
+	for _, n := range names {
+		if len(n) <= 8 {
+			try(n, "load")
+		}
+	}
 	for pass := 0; pass < 2; pass++ {
 		for _, n := range names {
 			if pass == 0 {
@@ -292,6 +299,12 @@ func c17Seed(root string) {
 	_ = os.WriteFile(filepath.Join(root, "work", ".gr"), []byte("marker_dotgr=1\n"), 0o644)
 	_ = os.WriteFile(filepath.Join(root, "work", "x.txt"), []byte("marker_xtxt=1\n"), 0o644)
 	_ = os.WriteFile(filepath.Join(root, "work", "x.txt.gr"), []byte("marker_xtxt=1\n"), 0o644)
+	for _, f := range []string{"Z", "1", "_", "ZZ", "a1"} {
+		_ = os.WriteFile(filepath.Join(root, "work", f), []byte("marker_noext=1\n"), 0o644)
+	}
+	for _, f := range []string{"1.gr.gr", "Z.gr.gr", "_1.gr.gr"} {
+		_ = os.WriteFile(filepath.Join(root, "work", f), []byte("marker_grgr=1\n"), 0o644)
+	}
 	// the directory of the "script being run" (State.CurrentFile points into it): same names as in the working directory
 	_ = os.MkdirAll(filepath.Join(root, "scripts"), 0o755)
 	for _, f := range []string{"a.gr", ".gr", "Z.gr", "1.gr", "_.gr", "aa.gr", "run.gr"} {
